@@ -33,7 +33,10 @@ AMBIENT_CALLS = {
 }
 AMBIENT_BUILTINS = {"id", "hash"}
 # debugging aid that prints object ids to stdout, never into an output file
-ALLOW = {("util.py", "trace", "id")}
+ALLOW = {("util.py", "trace", "id"),
+         # ClassNode.clone (fix 2887c10): id(parent) is only a memo key of a local dict that is never iterated;
+         # no emitted text depends on the value or order of the ids
+         ("ast.py", "rehome", "id")}
 
 
 def lang_rows():
